@@ -133,8 +133,8 @@ func TestExh_C17(t *testing.T) {
 		single(Peer{Name: "p", Idx: "10", Stall: st})
 		single(Peer{Name: "p", Idx: "10", Mask: 1 << 2, Stall: st})
 	}
-	// many bad peers pending at the same time ahead of good ones: 16, 17, 20, 32 (timeouts
-	// 100 ms) and 64 (50 ms) peers that never register / never answer Configure
+	// many bad peers pending at the same time ahead of good ones: 16, 17 (timeouts 100 ms)
+	// and 20, 32, 64 (50 ms) peers that never register / never answer Configure
 	crowd := func(b, timeoutMs int, stall func(i int) string, goods int) {
 		c := C17Case{Kind: "reg", TimeoutMs: timeoutMs, Events: evs}
 		for i := 0; i < b; i++ {
@@ -148,11 +148,9 @@ func TestExh_C17(t *testing.T) {
 	silent := func(int) string { return stallSilent }
 	crowd(17, 100, silent, 1)
 	crowd(16, 100, func(i int) string { return []string{stallSilent, stallCfgHang}[i%2] }, 2)
-	crowd(20, 100, func(int) string { return stallCfgHang }, 1)
-	crowd(32, 100, func(i int) string { return []string{stallSilent, stallSilent, stallCfgHang, stallLate}[i%4] }, 2)
+	crowd(20, 50, func(int) string { return stallCfgHang }, 1)
+	crowd(32, 50, func(i int) string { return []string{stallSilent, stallSilent, stallCfgHang, stallLate}[i%4] }, 2)
 	crowd(64, 50, silent, 2)
-	// peers that register several times on one connection: invalid attempts 60 ms apart, then
-	// silence / a disconnect / a valid registration clearly within or clearly after the timeout
 	tries := func(n int) []Reg {
 		var a []Reg
 		for i := 0; i < n; i++ {
@@ -160,6 +158,28 @@ func TestExh_C17(t *testing.T) {
 		}
 		return a
 	}
+	// the moment the timeouts are set: Adaptation started under T0, the case's timeout set
+	// after Start(); and a further change between two peers
+	late := Peer{Name: "p", Idx: "10", Stall: stallLate}
+	sil := Peer{Name: "p", Idx: "10", Stall: stallSilent}
+	retry := Peer{Name: "retry", Idx: "10", Stall: stallMulti, Final: finalValidLate, GapMs: 60, Attempts: tries(7)}
+	for _, c := range []C17Case{
+		{StartTimeoutMs: 5000, Peers: []Peer{late, good}},
+		{StartTimeoutMs: 5000, Peers: []Peer{sil, good}},
+		{StartTimeoutMs: 3000, TimeoutMs: 100, Peers: []Peer{late, sil, good}},
+		{StartTimeoutMs: 2000, Peers: []Peer{retry, good}},
+		{StartTimeoutMs: 1000, TimeoutMs: 150, Peers: []Peer{late, good}},
+		{StartTimeoutMs: 50, Peers: []Peer{good, late, good}},
+		{StartTimeoutMs: 50, TimeoutMs: 300, Peers: []Peer{{Name: "p", Idx: "10", Stall: stallCfgHang}, good}},
+		{TimeoutMs: 300, SwitchAfter: 1, SwitchTimeoutMs: 100, Peers: []Peer{sil, late, good}},
+		{TimeoutMs: 100, SwitchAfter: 2, SwitchTimeoutMs: 300, Peers: []Peer{late, good, late, good}},
+		{StartTimeoutMs: 5000, TimeoutMs: 300, SwitchAfter: 2, SwitchTimeoutMs: 100, Peers: []Peer{good, sil, late, good}},
+	} {
+		c.Kind, c.Events = "reg", evs
+		run(c)
+	}
+	// peers that register several times on one connection: invalid attempts 60 ms apart, then
+	// silence / a disconnect / a valid registration clearly within or clearly after the timeout
 	for _, m := range []Peer{
 		{Final: finalValidLate, GapMs: 60, Attempts: tries(7)},
 		{Final: finalValidLate, GapMs: 100, Attempts: tries(4)},
